@@ -135,14 +135,22 @@ class LeafStubs:
         self.saved = [(OLS, n, getattr(OLS, n)) for n in ("fit", "predict", "residuals")] + [
             (BEM, n, getattr(BEM, n)) for n in ("_estimate_epsilon", "_estimate_strata_dist", "_bootstrap_errors", "_sample_test_errors")]
 
+        L.fit_widths, L.predict_widths, L.fit_x = [], [], []
+
         def ols_fit(self, x, y, weights=None, lambda_=0.0, normal_eqs=None, fit_intercept=True, regularize_intercept=False,
                     n_feat_ignore_reg=0):
+            L.fit_widths.append(x.shape[1])
+            L.fit_x.append(np.asarray(x, dtype=object))
             self._ycols = y.shape[1] if y.ndim > 1 else 1
             self.normal_eqs = "NE"
             self.coefficients = L.fresh((x.shape[1], self._ycols), "coef")
 
         OLS.fit = ols_fit
-        OLS.predict = lambda self, x: L.fresh((x.shape[0], self._ycols), "olsp")
+        def ols_predict(self, x):
+            L.predict_widths.append(x.shape[1])
+            return L.fresh((x.shape[0], self._ycols), "olsp")
+
+        OLS.predict = ols_predict
         OLS.residuals = lambda self, y, y_hat, loo=True, center=True: L.fresh(y.shape, "olsr")
         BEM._estimate_epsilon = lambda self, residuals, agg: L.fresh((agg.shape[1], residuals.shape[1]), "eps")
         BEM._estimate_strata_dist = lambda self, *a, **k: ({}, {})
